@@ -428,8 +428,20 @@ func (broker *Broker) recover() (send []sts.Hashed, err error) {
 			nPoll,
 		))
 		var polled []sts.Polled
-		if polled, err = broker.Conf.Validator(pollNow); err != nil {
-			return
+		nErr = 0
+		for {
+			if polled, err = broker.Conf.Validator(pollNow); err != nil {
+				// Giving up here would leave these files in the cache, hashed but
+				// not done, where no scan picks them up again
+				broker.error("Recovery poll failed:", err.Error())
+				if broker.shouldStopNow() {
+					return
+				}
+				nErr++
+				broker.applyErrorBackoff(nErr)
+				continue
+			}
+			break
 		}
 		broker.info("STARTUP: Processing server response ...")
 		for _, f := range polled {
